@@ -205,6 +205,35 @@ func compsOf(cs []ct.Comp) []ecs.Comp {
 	return out
 }
 
+// Spread calls f with the components as a slice that the caller "owns": it has spare capacity holding a
+// sentinel, and is overwritten with a decoy component right after f returns (a caller may re-use its
+// argument slice for the next call). A callee that keeps the slice instead of its contents, or appends into
+// its spare capacity, changes behaviour.
+func Spread(cs []ct.Comp, f func(s []ecs.Comp)) {
+	n := len(cs)
+	decoy, sentinel := ct.T11, ct.T10
+	for _, c := range cs {
+		if c == ct.T11 {
+			decoy = ct.T8
+		}
+		if c == ct.T10 {
+			sentinel = ct.T7
+		}
+	}
+	buf := make([]ecs.Comp, n+1)
+	for i, c := range cs {
+		buf[i] = ct.CompOf(c)
+	}
+	buf[n] = ct.CompOf(sentinel)
+	f(buf[:n])
+	if buf[n] != ct.CompOf(sentinel) {
+		panic("the callee wrote into the spare capacity of the caller's argument slice")
+	}
+	for i := range buf[:n] {
+		buf[i] = ct.CompOf(decoy)
+	}
+}
+
 func pos(tuple []ct.Comp, c ct.Comp) int {
 	for i, x := range tuple {
 		if x == c {
